@@ -319,6 +319,8 @@ Section Decode.
           _ <-- check (in_range e) E_RANGE e ;;;
           let b := B e in
           let here := Z.min remaining 127 in
+          (* as in the root block: the slots behind the last page are empty, so that the pages listed are exactly the pages of the volume *)
+          _ <-- check (forallb (fun k => s32 b (4 * k) =? 0) (map Z.of_nat (seq (Z.to_nat here) (127 - Z.to_nat here)))) E_BMPAGES e ;;;
           r <-- bmext_chain f (s32 b 508) (remaining - here) ;;;
           Ok (e :: fst r, take_pages b 0 (Z.to_nat here) ++ snd r)
     end.
